@@ -168,11 +168,23 @@ def without_out(kwargs):
     return {k: v for k, v in kwargs.items() if k != "out"} if "out" in kwargs else kwargs
 
 
+def without_out_args(args, ans):
+    # The same for a buffer passed positionally (np.multiply(a, b, buf)): NumPy hands the buffer
+    # object itself back as the result, which is how it is recognised here; None means "no buffer".
+    while isbox(ans):
+        ans = ans._value
+    if any(a is ans for a in args):
+        return tuple(None if a is ans else a for a in args)
+    return args
+
+
 def translate_jvp(jvpfun, fun, argnum):
     if jvpfun is None:
         return lambda g, ans, *a, **k: vspace(ans).zeros()
     elif jvpfun == "same":
-        return lambda g, ans, *args, **kwargs: fun(*subval(args, argnum, g), **without_out(kwargs))
+        return lambda g, ans, *args, **kwargs: fun(
+            *subval(without_out_args(args, ans), argnum, g), **without_out(kwargs)
+        )
     elif callable(jvpfun):
         return jvpfun
     else:
@@ -181,7 +193,12 @@ def translate_jvp(jvpfun, fun, argnum):
 
 def def_linear(fun):
     """Flags that a function is linear wrt all args"""
-    defjvp_argnum(fun, lambda argnum, g, ans, args, kwargs: fun(*subval(args, argnum, g), **without_out(kwargs)))
+    defjvp_argnum(
+        fun,
+        lambda argnum, g, ans, args, kwargs: fun(
+            *subval(without_out_args(args, ans), argnum, g), **without_out(kwargs)
+        ),
+    )
 
 
 # -------------------- vector behavior --------------------
